@@ -9,9 +9,7 @@ package c12
 import (
 	"encoding/json"
 	"fmt"
-	"os"
 	"regexp"
-	"runtime/pprof"
 	"runtime/debug"
 	"strconv"
 	"strings"
@@ -58,11 +56,6 @@ func (Prop) Describe(t vp.Tier) vp.Description {
 }
 
 func (Prop) RunBatch(c *vp.Child) {
-	if pf := os.Getenv("C12_PROF"); pf != "" {
-		f, _ := os.Create(pf)
-		pprof.StartCPUProfile(f)
-		defer pprof.StopCPUProfile()
-	}
 	switch c.Stage {
 	case "expr":
 		runExpr(c)
